@@ -364,6 +364,24 @@ def check_events(a):
 
 
 # ------------------------------------------------------------------ known findings: predicates on the input
+def user_map(pairs):
+    """The prefix map the user asked for, read independently of the code:
+    '' and None both name the default namespace (first one wins), entries with
+    an empty URI mean nothing, a default namespace that also has a prefix is
+    expressed through that prefix."""
+    out = {}
+    for p, u in pairs:
+        if not u:
+            continue
+        k = p if p else None
+        if k not in out:
+            out[k] = u
+    d = out.get(None)
+    if d and any(k is not None and u == d for k, u in out.items()):
+        del out[None]
+    return out
+
+
 NSK = re.compile(r"ns[0-9]+\Z")
 MARKUP = re.compile(r'[&<"]')
 
@@ -399,7 +417,7 @@ def _uris(a):
                     c = S.clark(x)
                     if c and c[0]:
                         yield c[0]
-    for u in S.clean_user_map(a["ns_map"]).values():
+    for u in user_map(a["ns_map"]).values():
         yield u
 
 
@@ -410,15 +428,15 @@ def _qname_atoms(v):
 
 
 def p_nsk(a):
-    return any(isinstance(p, str) and NSK.match(p) for p in S.clean_user_map(a["ns_map"]))
+    return any(isinstance(p, str) and NSK.match(p) for p in user_map(a["ns_map"]))
 
 
 def p_standard_rebound(a):
-    return any(p in STANDARD and STANDARD[p] != u for p, u in S.clean_user_map(a["ns_map"]).items())
+    return any(p in STANDARD and STANDARD[p] != u for p, u in user_map(a["ns_map"]).items())
 
 
 def p_default_attr(a):
-    d = S.clean_user_map(a["ns_map"]).get(None)
+    d = user_map(a["ns_map"]).get(None)
     if not d:
         return False
     for e in a["events"]:
@@ -430,7 +448,7 @@ def p_default_attr(a):
 
 
 def p_reserved_prefix(a):
-    for p, u in S.clean_user_map(a["ns_map"]).items():
+    for p, u in user_map(a["ns_map"]).items():
         if p is not None and (p in ("xml", "xmlns") or not S.is_ncname(p)):
             return True
         if u in (XMLNS, XMLNS_NS) and p != "xml":
@@ -473,7 +491,7 @@ def p_qname_late(a):
 
 
 def p_qname_default(a):
-    if None not in S.clean_user_map(a["ns_map"]):
+    if None not in user_map(a["ns_map"]):
         return False
     for e in a["events"]:
         if e[0] in ("attr", "data"):
@@ -485,7 +503,7 @@ def p_qname_default(a):
 def p_qname_default_reset(a):
     """a QName value in the user's default namespace on an unqualified element:
     it is written without prefix and then the default namespace is reset"""
-    d = S.clean_user_map(a["ns_map"]).get(None)
+    d = user_map(a["ns_map"]).get(None)
     if not d:
         return False
     unqualified = False
